@@ -36,6 +36,7 @@
 #include "Covariances/CovFactory.hpp"
 #include "Covariances/CovAniso.hpp"
 #include "Covariances/ACovFunc.hpp"
+#include "Basic/AException.hpp"
 #include "Covariances/CovContext.hpp"
 #include "Covariances/CovCalcMode.hpp"
 #include "Model/Model.hpp"
@@ -75,43 +76,37 @@ static Gate gateOf(const ECov& t, int ndim, int nvar)
   Gate g;
   CovContext ctxt(nvar, ndim);
   VectorString lst = CovFactory::getCovList(ctxt);
+  // what the basic structure declares (CovFactory::createCovFunc is what getCovList itself uses)
+  std::unique_ptr<ACovFunc> f(CovFactory::createCovFunc(t, ctxt));
+  if (!f) return g;
+  g.name     = f->getCovName();
+  g.maxNDim  = (int)f->getMaxNDim();
+  g.minOrder = f->getMinOrder();
+  g.hasRange = f->hasRange();
+  g.hasParam = f->hasParam();
+  g.parMax   = f->getParMax();
+  for (const auto& s : lst)
+    if (s == g.name) g.offered = true;
+  if (refcov::sphereOnly(std::string(t.getKey())) && ndim >= 3)
+  {
+    // Building a CovAniso of the Markov structure in 3-D runs a 512^3 FFT (ACovFunc::computeCorrec): minutes and GBs.
+    // For the sphere-only structures in 3-D the gate predicate of CovAniso::isConsistent (space type and dimension)
+    // is therefore evaluated on the ACovFunc itself, which is what CovAniso::isConsistent reads.
+    g.built      = true;
+    g.consistent = f->getCompatibleSpaceR() && (f->getMaxNDim() <= 0 || (int)f->getMaxNDim() >= ndim);
+    return g;
+  }
   try
   {
-    if (refcov::sphereOnly(std::string(t.getKey())) && ndim >= 3)
-    {
-      // Building a CovAniso of the Markov structure in 3-D runs a 512^3 FFT (ACovFunc::computeCorrec): minutes and GBs.
-      // For the sphere-only structures in 3-D the gate predicate of CovAniso::isConsistent (space type and dimension)
-      // is therefore evaluated on the ACovFunc itself, which is what CovAniso::isConsistent reads.
-      std::unique_ptr<ACovFunc> f(CovFactory::createCovFunc(t, ctxt));
-      g.built      = f != nullptr;
-      g.name       = f->getCovName();
-      g.maxNDim    = (int)f->getMaxNDim();
-      g.consistent = f->getCompatibleSpaceR() && (f->getMaxNDim() <= 0 || (int)f->getMaxNDim() >= ndim);
-      g.minOrder   = f->getMinOrder();
-      g.hasRange   = f->hasRange();
-      g.hasParam   = f->hasParam();
-      g.parMax     = f->getParMax();
-      for (const auto& s : lst)
-        if (s == g.name) g.offered = true;
-      return g;
-    }
-    // ACovFunc's constructor documents: throws "Cannot create such covariance function in that context"
+    // the CovAniso constructors document: throw "Cannot create such covariance function in that context"
     CovAniso c(t, ctxt);
     g.built      = true;
     g.consistent = c.ASpaceObject::isConsistent();
-    g.name       = c.getCovName();
-    g.minOrder   = c.getMinOrder();
-    g.hasRange   = c.hasRange();
-    g.maxNDim    = c.getMaxNDim();
-    g.hasParam   = c.hasParam() != 0;
-    g.parMax     = c.getParMax();
   }
-  catch (const std::exception& e)
+  catch (const AException& e)
   {
     g.refusal = e.what();
   }
-  for (const auto& s : lst)
-    if (s == g.name) g.offered = true;
   return g;
 }
 
@@ -128,26 +123,21 @@ struct Comp
   std::vector<double> ranges, angles; // angles empty = no rotation requested
   std::vector<double> sill;           // nvar*nvar, symmetric PSD
   double scadef = 1.;                 // read from the library (documented factor range = scadef * scale)
-  std::string pdKey(int ndim) const
+  // Violation keys: one per structure and kind of failure; a suffix only where a structure has a sub-domain with a
+  // root cause of its own (so that a different defect of the same structure does not hide under an open finding).
+  std::string keyFor(const std::string& kind, int ndim, bool splineThreshold = false) const
   {
-    std::string k = "C03:pd:" + key + ":ndim=" + std::to_string(ndim);
-    if (!pclass.empty()) k += ":param-class=" + pclass;
-    return k;
+    if (pclass == "zero") return "C03:param-zero:" + key; // the admitted end 0 of the third parameter
+    if (key == "PENTA" && kind == "support") return "C03:pd:PENTA"; // same root cause as the PD failure
+    if (key == "PENTA" && kind == "pd") return ndim >= 2 ? "C03:pd:PENTA" : "C03:pd:PENTA:ndim=1";
+    if (key == "COSEXP" && kind == "pd") return ndim >= 2 ? "C03:pd:COSEXP" : "C03:pd:COSEXP:ndim=1";
+    if (key == "BESSELJ" && kind == "pd") return (ndim == 3 && param < 0.5) ? "C03:pd:BESSELJ:low-nu-3d" : "C03:pd:BESSELJ";
+    if (key == "MATERN" && kind == "finite") return param > 50. ? "C03:finite:MATERN:large-nu" : "C03:finite:MATERN";
+    if (key == "SPLINE_GC" && (kind == "cpd" || kind == "closed-form") && splineThreshold) return "C03:spline_gc:log-threshold";
+    return "C03:" + kind + ":" + key;
   }
-  std::string finiteKey(int ndim) const
-  {
-    std::string k = "C03:finite:" + key + ":ndim=" + std::to_string(ndim);
-    if (!pclass.empty()) k += ":param-class=" + pclass;
-    return k;
-  }
-  std::string cpdKey(int ndim) const
-  {
-    std::string k = "C03:cpd:" + key + ":ndim=" + std::to_string(ndim);
-    if (!pclass.empty()) k += ":param-class=" + pclass;
-    return k;
-  }
-  std::string endSuffix() const { return (pclass == "zero" || pclass == "max") ? ":param-class=" + pclass : ""; }
-  std::string classSuffix() const { return pclass.empty() ? "" : ":param-class=" + pclass; }
+  std::string pdKey(int ndim) const { return keyFor("pd", ndim); }
+  std::string finiteKey(int ndim) const { return keyFor("finite", ndim); }
 };
 
 static bool isTestVal(double v) { return !std::isfinite(v) || std::fabs(v) > 1e29; }
@@ -685,7 +675,8 @@ struct CaseCfg
   bool gateSweep = false;
   std::string gateKey; // used instead of the pd / closed-form keys in the gate sweep
   std::string factoryKey; // key of the range-related oracles on the CovAniso::create* routes (parametrised structures)
-  std::string overrideKey;   // one key for every failure of a case whose construction route is itself the suspect
+  std::string overrideKey;   // one key for every failure of a case whose construction route is itself the suspect (unused)
+  std::string routeFiniteKey; // key of the 'finite' oracle on the setRotationAnglesAndRadius route, intrinsic structures
   bool representable = true; // every range / scadef is a scale the library accepts
   int NEIG;
 };
@@ -715,18 +706,33 @@ static Verdict checkModel(Rng& r, Ctx& c, Model* model, RefModel& rm, const Pts&
   auto K = [&](const std::string& /*kind*/, const std::string& dflt) {
     return cfg.gateSweep ? cfg.gateKey : (!cfg.overrideKey.empty() ? cfg.overrideKey : dflt);
   };
-  std::string sfx      = single ? c0.endSuffix() : "";
   std::string names    = c0.key;
   for (size_t i = 1; i < rm.comps.size(); i++) names += "+" + rm.comps[i].key;
+  // SPLINE_GC: is there a pair of distinct points below the library's log cut-off (h < field * 1e-4) ?
+  bool splineThr = false;
+  if (single && c0.key == "SPLINE_GC")
+  {
+    LD field = 0;
+    for (double v : c0.ranges) field = std::max(field, (LD)v);
+    for (int i = 0; i < n && !splineThr; i++)
+      for (int j = 0; j < i; j++)
+      {
+        LD d[3] = {0, 0, 0};
+        for (int k = 0; k < ndim; k++) d[k] = (LD)X[j][k] - (LD)X[i][k];
+        LD h = rm.hnorm(0, d);
+        if (h > 0 && h < 2e-4L * field) { splineThr = true; break; }
+      }
+  }
+  auto SK = [&](const char* kind, const char* sumKey) { return single ? c0.keyFor(kind, ndim, splineThr) : std::string(sumKey); };
   std::string kStruct  = single ? c0.key : "sum";
-  std::string nd       = ":ndim=" + std::to_string(ndim);
-  std::string kFinite  = K("finite", single ? c0.finiteKey(ndim) : "C03:finite:sum" + nd);
-  std::string kSym     = K("sym", "C03:symmetry:" + kStruct + sfx);
-  std::string kPoint   = K("point", "C03:pointwise:" + kStruct + sfx);
-  std::string kVario   = K("vario", "C03:vario-mode:" + kStruct + sfx);
-  std::string kBound   = K("bound", "C03:bound:" + kStruct + nd + (single && !c0.pclass.empty() ? ":param-class=" + c0.pclass : ""));
-  std::string kClosed  = K("closed", cfg.factoryKey.empty() ? "C03:closed-form:" + kStruct + (single ? c0.classSuffix() : "") : cfg.factoryKey);
-  std::string kPd      = K("pd", single ? c0.pdKey(ndim) : "C03:pd-sum" + nd);
+  std::string kFinite  = K("finite", !cfg.routeFiniteKey.empty() ? cfg.routeFiniteKey : SK("finite", "C03:finite:sum"));
+  std::string kSym     = K("sym", SK("symmetry", "C03:symmetry:sum"));
+  std::string kPoint   = K("point", SK("pointwise", "C03:pointwise:sum"));
+  std::string kVario   = K("vario", SK("vario-mode", "C03:vario-mode:sum"));
+  std::string kBound   = K("bound", SK("bound", "C03:bound:sum"));
+  std::string kClosed  = K("closed", SK("closed-form", "C03:closed-form:sum"));
+  std::string kPd      = K("pd", SK("pd", "C03:pd-sum"));
+  std::string kCpd     = K("cpd", SK("cpd", "C03:cpd-sum"));
   std::string detail0  = fmt("%s ndim=%d nvar=%d n=%d via %s", names.c_str(), ndim, nvar, n, ROUTE[cfg.route]);
 
   std::unique_ptr<Db> db = mkDb(X, ndim);
@@ -928,7 +934,7 @@ static Verdict checkModel(Rng& r, Ctx& c, Model* model, RefModel& rm, const Pts&
     }
     if (report || po.ok)
     {
-      std::string kc = K("cpd", single ? c0.cpdKey(ndim) : "C03:cpd-sum" + nd);
+      const std::string& kc = kCpd;
       c.check("cpd", kc, po.e1.ok, (double)std::max((LD)0, -po.e1.lmin), (double)po.e1.tol,
               detail0 + fmt(": P^T K P has eigenvalue %.6Lg (largest %.6Lg) on increments of order %d; param=%g", po.e1.lmin, po.e1.lmax, order, c0.param) + diag);
       c.check("cpd-vario", kc, po.e2.ok, (double)std::max((LD)0, -po.e2.lmin), (double)po.e2.tol,
@@ -1008,7 +1014,11 @@ static void checkAxes(Rng& r, Ctx& c, Model* model, RefModel& rm, const CaseCfg&
   const Comp& c0 = rm.comps[0];
   const int ndim = cfg.ndim, nvar = cfg.nvar;
   if (c0.g.hasRange <= 0) return;
-  auto RK = [&](const char* kind) { return cfg.factoryKey.empty() ? std::string("C03:") + kind + ":" + c0.key + c0.classSuffix() : cfg.factoryKey; };
+  // getRanges() != requested ranges on a CovAniso::create* route has its own key (the factories once set the range
+  // before the third parameter); every other oracle keeps the structure's key
+  auto RK = [&](const char* kind) {
+    return (!cfg.factoryKey.empty() && std::string(kind) == "range-echo") ? cfg.factoryKey : c0.keyFor(kind, ndim);
+  };
   std::string det = fmt("%s ndim=%d via %s param=%g", c0.key.c_str(), ndim, ROUTE[cfg.route], c0.param);
   const CovAniso* cov = model->getCova(0);
   // the requested practical ranges are the ranges of the structure (skipped when range/scadef leaves [1e-15, 1e15]:
@@ -1136,6 +1146,11 @@ static void run_case(Rng& r, Ctx& c)
   defineDefaultSpace(ESpaceType::RN, ndim);
 
   int nvar = r.pick(std::vector<int> {1, 1, 1, 2, 2, 3});
+  // every 4th draw: one variable on a grid laid along the rotated anisotropy axes with a mesh of 0.4-1.6 (draws 0 mod 8)
+  // or 0.1-0.5 (draws 4 mod 8) ranges (the
+  // configuration on which structures that are not valid in the dimension show the most negative eigenvalues)
+  const bool adversarial = (j % 4 == 0);
+  if (adversarial) nvar = 1;
   Gate g   = gateOf(t, ndim, nvar);
   c.puts("structure", key);
   c.putn("ndim", ndim);
@@ -1193,17 +1208,26 @@ static void run_case(Rng& r, Ctx& c)
   }
   bool useScales = r.coin(0.25);
   int layout     = r.irange(0, 4);
-  if (ndim == 1 && layout == 1) layout = 0;
   double s = r.coin(0.6) ? r.loguni(0.15, 1.5) : r.loguni(0.02, 5.);
+  if (adversarial)
+  {
+    layout = 1;
+    s      = (j % 8 == 0) ? r.uni(0.4, 1.6) : r.uni(0.1, 0.5);
+  }
+  if (ndim == 1 && layout == 1) layout = 0;
+  // every 3rd draw: one pair of distinct points 1e-7 to 1e-3 ranges apart
+  const double nearDup = (j % 3 == 1) ? r.loguni(1e-7, 1e-3) : 0.;
   int order = -1;
   for (auto& cc : comps) order = std::max(order, cc.g.minOrder);
   int Nmax = c.thorough() ? (r.coin(0.1) ? 360 : 120) : 72;
   int nmin = order >= 0 ? 24 : 10;
   int n    = r.irange(nmin, std::max(nmin, Nmax / nvar));
+  if (adversarial) n = std::max(nmin, Nmax / nvar);
   if (c.thorough() && Nmax == 360) n = std::max(n, 150 / nvar);
 
   std::string sig = key + ":ndim=" + std::to_string(ndim) + ":nvar=" + std::to_string(nvar) + ":p=" + c0.pclass + ":" +
-                    LAYOUT[layout] + ":nstruct=" + std::to_string(nstruct) + ":" + ROUTE[route] + (inDomain ? "" : ":gate");
+                    LAYOUT[layout] + ":nstruct=" + std::to_string(nstruct) + ":" + ROUTE[route] + (inDomain ? "" : ":gate") +
+                    (adversarial ? ":adv" : "") + (nearDup > 0 ? ":neardup" : "");
   c.setSig(sig);
   c.putn("nvar", nvar);
   c.putn("param", c0.param);
@@ -1241,7 +1265,7 @@ static void run_case(Rng& r, Ctx& c)
     for (auto& cc : cs) intr = intr || cc.g.hasRange < 0;
     return (route == 4 && intr) ? std::string("C03:setRotationAnglesAndRadius:intrinsic") : std::string();
   };
-  cfg.overrideKey = routeKey(comps);
+  cfg.routeFiniteKey = routeKey(comps); // (once: the field was not forwarded, K(0) ~ 1e30: the 'finite' oracle)
 
   // ---- representable scales --------------------------------------------------------------------------------------
   // CovAniso::setRangeIsotropic / setRanges / setScale(s) document (messages "Range is too small", "A scale should not
@@ -1319,6 +1343,15 @@ static void run_case(Rng& r, Ctx& c)
   rm.prepare();
 
   Pts X = genPoints(r, ndim, n, layout, s, c0);
+  if (nearDup > 0 && X.size() > 4)
+  {
+    int i = r.irange(0, (int)X.size() - 1), k = (i + 1 + r.irange(0, (int)X.size() - 2)) % (int)X.size();
+    std::vector<double> dir(ndim);
+    double nn = 0;
+    for (auto& v : dir) { v = r.normal(); nn += v * v; }
+    X[k] = X[i];
+    for (int q = 0; q < ndim; q++) X[k][q] += nearDup * c0.ranges[0] * dir[q] / std::sqrt(nn);
+  }
   c.putn("n", (double)X.size());
 
   bool single = comps.size() == 1;
@@ -1358,7 +1391,7 @@ static void run_case(Rng& r, Ctx& c)
       r1.prepare();
       CaseCfg cf1 = cfg;
       if (!((route == 2 || route == 3) && one[0].g.hasParam)) cf1.factoryKey = "";
-      cf1.overrideKey = routeKey(one);
+      cf1.routeFiniteKey = routeKey(one);
       c.probe("sum-attribution");
       Verdict Vk = checkModel(r, c, m1.get(), r1, X, cf1, true);
       A.finite   = A.finite && Vk.finite;
@@ -1367,16 +1400,15 @@ static void run_case(Rng& r, Ctx& c)
       A.bound    = A.bound && Vk.bound;
     }
   }
-  std::string nd = ":ndim=" + std::to_string(ndim);
   std::string names = comps[0].key;
   for (size_t k = 1; k < comps.size(); k++) names += "+" + comps[k].key;
-  c.truth("sum-finite", "C03:finite:sum" + nd, V.finite || !A.finite, names + ": the sum has a non-finite entry although every component alone is finite");
+  c.truth("sum-finite", "C03:finite:sum", V.finite || !A.finite, names + ": the sum has a non-finite entry although every component alone is finite");
   if (V.finite)
   {
-    c.truth(order < 0 ? "sum-pd" : "sum-cpd", (order < 0 ? "C03:pd-sum" : "C03:cpd-sum") + nd, V.pd || !A.pd,
+    c.truth(order < 0 ? "sum-pd" : "sum-cpd", order < 0 ? "C03:pd-sum" : "C03:cpd-sum", V.pd || !A.pd,
             names + ": the sum is not (conditionally) positive definite on this point set although every component alone is");
-    c.truth("sum-bound", "C03:bound:sum" + nd, V.bound || !A.bound, names + ": |C(h)| > C(0) for the sum although it holds for every component");
-    c.truth("sum-closed-form", cfg.factoryKey.empty() ? "C03:closed-form:sum" : cfg.factoryKey, V.closed || !A.closed,
+    c.truth("sum-bound", "C03:bound:sum", V.bound || !A.bound, names + ": |C(h)| > C(0) for the sum although it holds for every component");
+    c.truth("sum-closed-form", "C03:closed-form:sum", V.closed || !A.closed,
             names + ": the sum differs from the sum of the published closed forms although every component alone agrees");
   }
 }
